@@ -910,7 +910,7 @@ def __or__(self, other):
                         Metrics.addUse(rank, a_coord, a_pos, type_=a_trace)
                         a_pos += 1
 
-                    b_default = self.b_fiber._createDefault()
+                    b_default = self.b_fiber._createDefault(addtorank=False)
                     yield a_coord, ("A", a_payload, b_default)
                     a_coord, a_payload = _get_next(a)
 
@@ -920,7 +920,7 @@ def __or__(self, other):
                         Metrics.addUse(rank, b_coord, b_pos, type_=b_trace)
                         b_pos += 1
 
-                    a_default = self.a_fiber._createDefault()
+                    a_default = self.a_fiber._createDefault(addtorank=False)
                     yield b_coord, ("B", a_default, b_payload)
                     b_coord, b_payload = _get_next(b)
 
@@ -929,7 +929,7 @@ def __or__(self, other):
                     Metrics.addUse(rank, a_coord, a_pos, type_=a_trace)
                     a_pos += 1
 
-                b_default = self.b_fiber._createDefault()
+                b_default = self.b_fiber._createDefault(addtorank=False)
                 yield a_coord, ("A", a_payload, b_default)
                 a_coord, a_payload = _get_next(a)
 
@@ -938,7 +938,7 @@ def __or__(self, other):
                         Metrics.addUse(rank, b_coord, b_pos, type_=b_trace)
                         b_pos += 1
 
-                    a_default = self.a_fiber._createDefault()
+                    a_default = self.a_fiber._createDefault(addtorank=False)
                     yield b_coord, ("B", a_default, b_payload)
                     b_coord, b_payload = _get_next(b)
 
@@ -1013,23 +1013,23 @@ def __xor__(self, other):
                     b_coord, b_payload = _get_next(b)
 
                 elif a_coord < b_coord:
-                    b_default = self.b_fiber._createDefault()
+                    b_default = self.b_fiber._createDefault(addtorank=False)
                     yield a_coord, ("A", a_payload, b_default)
                     a_coord, a_payload = _get_next(a)
 
                 # a_coord > b_coord
                 else:
-                    a_default = self.a_fiber._createDefault()
+                    a_default = self.a_fiber._createDefault(addtorank=False)
                     yield b_coord, ("B", a_default, b_payload)
                     b_coord, b_payload = _get_next(b)
 
             while a_coord is not None:
-                b_default = self.b_fiber._createDefault()
+                b_default = self.b_fiber._createDefault(addtorank=False)
                 yield a_coord, ("A", a_payload, b_default)
                 a_coord, a_payload = _get_next(a)
 
             while b_coord is not None:
-                a_default = self.a_fiber._createDefault()
+                a_default = self.a_fiber._createDefault(addtorank=False)
                 yield b_coord, ("B", a_default, b_payload)
                 b_coord, b_payload = _get_next(b)
 
